@@ -402,6 +402,294 @@ theorem hasLiveInput_iff (hn : dg.names.Nodup) (hc : dg.ConnIn) (ha : dg.rgAll.A
 
 end Tables
 
+/-! ## Stage 6: the graph `chk_terminals` returns is the usable part -/
+
+theorem isIn_iff_mem_inPorts {g : Graph N} (hwf : g.WF) {p : N} (hp : p ∈ g.names) :
+    (rgOfGraph g).isIn p = true ↔ p ∈ g.inPorts := by
+  rw [LoaderRoutes.isIn_iff, Graph.mem_inPorts]
+  constructor
+  · intro h
+    refine ⟨hp, fun a ha => h a (hwf.edgesIn _ ha).1 ?_⟩
+    simpa [rgOfGraph] using ha
+  · intro h v _ hv
+    exact h.2 v (by simpa [rgOfGraph] using hv)
+
+section Usable
+variable [LT N] [DecidableRel (α := N) (· < ·)] (fold : N → N) {d : Desc N} {g g2 : Graph N} {reg : List N}
+
+/-- what stages 1–3 establish about the description graph -/
+theorem dg_facts (hcg : createGraph fold d = .ok (g, reg)) (hac : isAcyclic g = true) :
+    g.WF ∧ DGMatch (dgOf fold d) g ∧ (dgOf fold d).names.Nodup ∧ (dgOf fold d).ConnIn ∧
+      (dgOf fold d).rgAll.Acyclic := by
+  have hwf : g.WF := createGraph_WF fold hcg
+  have hm : DGMatch (dgOf fold d) g := createGraph_match fold hcg
+  refine ⟨hwf, hm, hm.names ▸ hwf.namesNodup, dgOf_connIn fold d, ?_⟩
+  exact (acyclic_rgAll_iff hm).2 ((isAcyclic_iff_acyclic hwf).1 hac)
+
+/-- the declared locks of a unit of the final graph -/
+theorem lock_usable (hcg : createGraph fold d = .ok (g, reg)) (hac : isAcyclic g = true)
+    (hind : g2.Induced (rmEmpty (cleanStruct g))) (t : LockType) {u : N} (hu : u ∈ g2.names) :
+    nodeLock g2 t u = (dgOf fold d).usable.lock t u := by
+  obtain ⟨hwf, hm, hn, hc, ha⟩ := dg_facts fold hcg hac
+  have hcs : (cleanStruct g).WF := hwf.cleanStruct
+  have h1 : (rmEmpty (cleanStruct g)).WF := hcs.rmEmpty
+  have hu1 : u ∈ (rmEmpty (cleanStruct g)).names := hind.names_sublist.subset hu
+  have hucs : u ∈ (cleanStruct g).names := (rmEmpty_induced hcs).names_sublist.subset hu1
+  have hnode2 : g2.node? u = (cleanStruct g).node? u := by
+    rw [Induced_node? hind h1.namesNodup hu, Induced_node? (rmEmpty_induced hcs) hcs.namesNodup hu1]
+  obtain ⟨n, hn', hname⟩ := Graph.mem_names.1 hucs
+  have hnode : (cleanStruct g).node? u = some n := hname ▸ Graph.node?_of_mem hcs.namesNodup hn'
+  have hs : n.strip ∈ (cleanStruct g).nodes.map GNode.strip := List.mem_map.2 ⟨n, hn', rfl⟩
+  rw [strip_cleanStruct] at hs
+  obtain ⟨n0, hn0, hstrip⟩ := List.mem_map.1 hs
+  simp only [GNode.strip, Prod.mk.injEq] at hstrip
+  obtain ⟨x, hx, hno⟩ := forall₂_left (createGraph_nodes fold hcg).1 n0 hn0
+  have hx' : ({ x with caps := declared fold d x, acl := x.acl.map (stdCapName fold d) } : UnitD N) ∈
+      (dgOf fold d).units := List.mem_map.2 ⟨x, hx, rfl⟩
+  have hunit := DG.unit?_of_mem hn hx'
+  have hxu : x.name = u := by rw [← hno.1, hstrip.1, hname]
+  simp only [hxu] at hunit
+  unfold nodeLock
+  rw [hnode2, hnode]
+  simp only [DG.usable, DG.usableOf, hunit]
+  cases t
+  · simp only; rw [← hstrip.2.2.1, hno.2.2.1]
+  · simp only; rw [← hstrip.2.2.2.1, hno.2.2.2.1]
+
+/-- **the graph `chk_terminals` returns is the usable part of the description** -/
+theorem usable_equiv (hcg : createGraph fold d = .ok (g, reg)) (hac : isAcyclic g = true)
+    (hterm : chkTerminals g.inPorts g.outPorts ((rmEmpty (cleanStruct g)).nodes.length + 1)
+      (rmEmpty (cleanStruct g)) = .ok g2) :
+    RGEquivOn (rgOfGraph g2) (dgOf fold d).usable := by
+  obtain ⟨hwf, hm, hn, hc, ha⟩ := dg_facts fold hcg hac
+  have ht : ∀ u c, c ∈ capsIn (dgOf fold d).keptTable u ↔ (dgOf fold d).Feeds c u :=
+    fun u c => DG.mem_keptTable_iff hn hc ha
+  have hl := chkTerminals_live hwf hac hterm
+  obtain ⟨hwf2, hac2, hind, hclosed⟩ := terminals_final hwf hac hterm
+  have hcs : (cleanStruct g).WF := hwf.cleanStruct
+  have h1 : (rmEmpty (cleanStruct g)).WF := hcs.rmEmpty
+  have hnames : ∀ u, u ∈ g2.names ↔ u ∈ (dgOf fold d).liveIn (dgOf fold d).keptTable := by
+    intro u
+    rw [hl.1, DG.mem_liveIn_iff ht hc ha, hm.live hwf]
+  refine ⟨hnames, ?_, ?_, ?_⟩
+  · intro a b
+    show decide ((a, b) ∈ g2.edges) =
+      (decide (a ∈ (dgOf fold d).liveIn (dgOf fold d).keptTable) &&
+        decide (b ∈ (dgOf fold d).liveIn (dgOf fold d).keptTable) &&
+        (dgOf fold d).keptConnT (dgOf fold d).keptTable a b)
+    rw [Bool.eq_iff_iff]
+    simp only [Bool.and_eq_true, decide_eq_true_eq]
+    rw [hl.2, ← hnames, ← hnames, hl.1, hl.1, DG.keptConnT_iff ht, hm.keptConn hwf]
+    constructor
+    · rintro ⟨h1, h2, h3⟩; exact ⟨⟨h2, h3⟩, h1⟩
+    · rintro ⟨⟨h2, h3⟩, h1⟩; exact ⟨h1, h2, h3⟩
+  · intro u hu c
+    have hu' : u ∈ g2.names := hu
+    show decide (c ∈ g2.capsOf u) = decide (c ∈ capsIn (dgOf fold d).keptTable u)
+    rw [Bool.eq_iff_iff, decide_eq_true_eq, decide_eq_true_eq, ht, hm.feeds hwf]
+    have hu1 : u ∈ (rmEmpty (cleanStruct g)).names := hind.names_sublist.subset hu'
+    have hucs : u ∈ (cleanStruct g).names := (rmEmpty_induced hcs).names_sublist.subset hu1
+    rw [Induced_capsOf hind h1.namesNodup hu', Induced_capsOf (rmEmpty_induced hcs) hcs.namesNodup hu1]
+    have hspec := cleanStruct_spec hwf hac
+    exact hspec.2.1 u (hspec.1 ▸ hucs) c
+  · intro t u hu
+    exact lock_usable fold hcg hac hind t hu
+
+end Usable
+
+/-! ## Stage 6: `capDefects` and the culprits, for any capability graph equivalent to the final graph -/
+
+section Stage6
+variable {g2 : Graph N} {U : RG N} {capsOf : N → List N}
+
+theorem mem_offered {pc : N × N} :
+    pc ∈ offered U capsOf ↔ pc.1 ∈ U.names ∧ U.isIn pc.1 = true ∧ pc.2 ∈ capsOf pc.1 := by
+  obtain ⟨p, c⟩ := pc
+  unfold offered
+  simp only [List.mem_flatMap, List.mem_filter, List.mem_map, Prod.mk.injEq]
+  constructor
+  · rintro ⟨q, ⟨h1, h2⟩, c', h3, rfl, rfl⟩; exact ⟨h1, h2, h3⟩
+  · rintro ⟨h1, h2, h3⟩; exact ⟨p, ⟨h1, h2⟩, c, h3, rfl, rfl⟩
+
+/-- the offered (port, capability) pairs of `U` are those of the final graph -/
+theorem offered_iff (hE : RGEquivOn (rgOfGraph g2) U) (hwf2 : g2.WF)
+    (hsup : ∀ u c, U.sup u c = decide (c ∈ capsOf u)) {p c : N} :
+    (p, c) ∈ offered U capsOf ↔ p ∈ g2.inPorts ∧ c ∈ g2.capsOf p := by
+  rw [mem_offered]
+  constructor
+  · rintro ⟨h1, h2, h3⟩
+    have hp : p ∈ g2.names := (hE.names p).2 h1
+    refine ⟨(isIn_iff_mem_inPorts hwf2 hp).1 ((hE.isIn_iff p).2 h2), ?_⟩
+    have := hE.sup p hp c
+    rw [hsup] at this
+    have h4 : decide (c ∈ g2.capsOf p) = true := by
+      have h5 : (rgOfGraph g2).sup p c = decide (c ∈ g2.capsOf p) := rfl
+      rw [← h5, this]; simpa using h3
+    simpa using h4
+  · rintro ⟨h1, h2⟩
+    have hp : p ∈ g2.names := (Graph.mem_inPorts.1 h1).1
+    refine ⟨(hE.names p).1 hp, (hE.isIn_iff p).1 ((isIn_iff_mem_inPorts hwf2 hp).2 h1), ?_⟩
+    have := hE.sup p hp c
+    rw [hsup] at this
+    have h5 : (rgOfGraph g2).sup p c = decide (c ∈ g2.capsOf p) := rfl
+    rw [h5] at this
+    have h6 : decide (c ∈ capsOf p) = true := by rw [← this]; simpa using h2
+    simpa using h6
+
+theorem stage6_flags (hE : RGEquivOn (rgOfGraph g2) U) (hwf2 : g2.WF) (hac2 : isAcyclic g2 = true)
+    (hsup : ∀ u c, U.sup u c = decide (c ∈ capsOf u)) :
+    (hasPathLock U capsOf = true ↔ ∃ p ∈ g2.inPorts, ∃ c ∈ g2.capsOf p, ¬ (rgOfGraph g2).LocksExact c p) ∧
+    (hasBlockedCap U capsOf = true ↔ ∃ p ∈ g2.inPorts, ∃ c ∈ g2.capsOf p, ¬ (rgOfGraph g2).ReachesOut c p) := by
+  have hc2 := connIn_rgOfGraph hwf2
+  have ha2 := (isAcyclic_iff_acyclic hwf2).1 hac2
+  have hcU : ConnIn U := hE.connIn hc2
+  have haU : U.Acyclic := hE.acyclic_iff.1 ha2
+  have hU : ∀ p c, p ∈ g2.inPorts → c ∈ g2.capsOf p → p ∈ g2.names ∧ p ∈ U.names ∧ U.sup p c = true := by
+    intro p c h1 h2
+    have hp : p ∈ g2.names := (Graph.mem_inPorts.1 h1).1
+    have := ((offered_iff hE hwf2 hsup).2 ⟨h1, h2⟩)
+    rw [mem_offered] at this
+    exact ⟨hp, this.1, by rw [hsup]; simpa using this.2.2⟩
+  constructor
+  · unfold hasPathLock
+    rw [List.any_eq_true]
+    constructor
+    · rintro ⟨⟨p, c⟩, hmem, hno⟩
+      obtain ⟨h1, h2⟩ := (offered_iff hE hwf2 hsup).1 hmem
+      obtain ⟨hp, hpU, hs⟩ := hU p c h1 h2
+      refine ⟨p, h1, c, h2, ?_⟩
+      intro hex
+      have := (locksExactB_iff U hcU haU hpU hs).2 ((hE.locksExact_iff hc2 hp).1 hex)
+      simp [this] at hno
+    · rintro ⟨p, h1, c, h2, hno⟩
+      obtain ⟨hp, hpU, hs⟩ := hU p c h1 h2
+      refine ⟨(p, c), (offered_iff hE hwf2 hsup).2 ⟨h1, h2⟩, ?_⟩
+      cases hb : U.locksExactB c p with
+      | false => rfl
+      | true => exact absurd ((hE.locksExact_iff hc2 hp).2 ((locksExactB_iff U hcU haU hpU hs).1 hb)) hno
+  · unfold hasBlockedCap
+    rw [List.any_eq_true]
+    constructor
+    · rintro ⟨⟨p, c⟩, hmem, hno⟩
+      obtain ⟨h1, h2⟩ := (offered_iff hE hwf2 hsup).1 hmem
+      obtain ⟨hp, hpU, hs⟩ := hU p c h1 h2
+      refine ⟨p, h1, c, h2, ?_⟩
+      intro hex
+      have := (reachesOutB_iff U hcU haU hpU hs).2 ((hE.reachesOut_iff hc2 hp).1 hex)
+      simp [this] at hno
+    · rintro ⟨p, h1, c, h2, hno⟩
+      obtain ⟨hp, hpU, hs⟩ := hU p c h1 h2
+      refine ⟨(p, c), (offered_iff hE hwf2 hsup).2 ⟨h1, h2⟩, ?_⟩
+      cases hb : U.reachesOutB c p with
+      | false => rfl
+      | true => exact absurd ((hE.reachesOut_iff hc2 hp).2 ((reachesOutB_iff U hcU haU hpU hs).1 hb)) hno
+
+/-- what `culpritReal` asks of a `PathLockError` -/
+def pathLockCulprit (U : RG N) (start : N) (t : LockType) (cap : N) : Bool :=
+  let counts := (U.maxRoutes cap start).map (U.lockCount t)
+  decide (start ∈ U.names) && U.sup start cap &&
+    (counts.any (fun k => decide (2 ≤ k)) ||
+     counts.any (fun k => counts.any (fun k' => k != k')) ||
+     (U.isIn start && counts.any (fun k => k == 0)))
+
+/-- what `culpritReal` asks of a `BlockedCapError` -/
+def blockedCulprit (U : RG N) (cap port : N) : Bool :=
+  decide (port ∈ U.names) && U.isIn port && U.sup port cap && !U.reachesOutB cap port
+
+/-- the culprits `chkCaps` names are real in every capability graph equivalent to the final graph -/
+theorem stage6_culprit (hE : RGEquivOn (rgOfGraph g2) U) (hwf2 : g2.WF) (hac2 : isAcyclic g2 = true)
+    {e : LoadError N} (h : chkCaps g2 = .error e) :
+    (∃ u t c, e = .pathLock u t c ∧ pathLockCulprit U u t c = true) ∨
+    (∃ c p, e = .blockedCap c p ∧ blockedCulprit U c p = true) := by
+  have hc2 := connIn_rgOfGraph hwf2
+  have ha2 := (isAcyclic_iff_acyclic hwf2).1 hac2
+  have hcU : ConnIn U := hE.connIn hc2
+  have haU : U.Acyclic := hE.acyclic_iff.1 ha2
+  rcases chkCaps_error hwf2 hac2 h with ⟨u, t, c, he, hc, hb⟩ | ⟨c, p, he, hpi, hc, hno⟩
+  · left
+    refine ⟨u, t, c, he, ?_⟩
+    have hu : u ∈ g2.names := mem_names_of_capsOf hc
+    have huU : u ∈ U.names := (hE.names u).1 hu
+    have hsU : U.sup u c = true := by
+      rw [← hE.sup u hu c]; simpa [rgOfGraph] using hc
+    -- a maximal route of the final graph is listed by `maxRoutes`, with the same lock count
+    have hroute : ∀ r, MaxRouteFrom g2 c u r →
+        U.lockCount t r ∈ (U.maxRoutes c u).map (U.lockCount t) ∧ U.lockCount t r = (rgOfGraph g2).lockCount t r := by
+      intro r hr
+      have hm := (hE.isMaxRoute_iff hc2 hu hr.2).1 hr.1
+      exact ⟨List.mem_map.2 ⟨r, (mem_maxRoutes_iff U hcU haU huU hsU).2 ⟨hm, hr.2⟩, rfl⟩,
+        (hE.lockCount_route hc2 t hu hr.2 hr.1.1).symm⟩
+    unfold pathLockCulprit
+    simp only [Bool.and_eq_true, Bool.or_eq_true, decide_eq_true_eq, List.any_eq_true]
+    refine ⟨⟨huU, hsU⟩, ?_⟩
+    rcases hb with (⟨r, hr, h2⟩ | ⟨r1, r2, h1, h2, hne⟩) | ⟨hui, r, hr, h0⟩
+    · obtain ⟨hm, heq⟩ := hroute r hr
+      exact Or.inl (Or.inl ⟨_, hm, by rw [heq]; exact h2⟩)
+    · obtain ⟨hm1, heq1⟩ := hroute r1 h1
+      obtain ⟨hm2, heq2⟩ := hroute r2 h2
+      refine Or.inl (Or.inr ⟨_, hm1, _, hm2, ?_⟩)
+      rw [heq1, heq2]
+      simpa using hne
+    · obtain ⟨hm, heq⟩ := hroute r hr
+      refine Or.inr ⟨(hE.isIn_iff u).1 ((isIn_iff_mem_inPorts hwf2 hu).2 hui), _, hm, ?_⟩
+      rw [heq, h0]; rfl
+  · right
+    refine ⟨c, p, he, ?_⟩
+    have hp : p ∈ g2.names := (Graph.mem_inPorts.1 hpi).1
+    have hpU : p ∈ U.names := (hE.names p).1 hp
+    have hsU : U.sup p c = true := by
+      rw [← hE.sup p hp c]; simpa [rgOfGraph] using hc
+    unfold blockedCulprit
+    simp only [Bool.and_eq_true, decide_eq_true_eq, Bool.not_eq_true']
+    refine ⟨⟨⟨hpU, (hE.isIn_iff p).1 ((isIn_iff_mem_inPorts hwf2 hp).2 hpi)⟩, hsU⟩, ?_⟩
+    cases hb : U.reachesOutB c p with
+    | false => rfl
+    | true => exact absurd ((hE.reachesOut_iff hc2 hp).2 ((reachesOutB_iff U hcU haU hpU hsU).1 hb)) hno
+
+end Stage6
+
+/-! ## `_make_processor` cannot fail on an accepted graph -/
+
+section MakeProc
+variable [LT N] [DecidableRel (α := N) (· < ·)] (fold : N → N)
+
+theorem makeProcessor_isSome {g : Graph N} (reg : List N) (hwf : g.WF) (hac : isAcyclic g = true) :
+    (makeProcessor fold reg g).isSome = true := by
+  unfold makeProcessor mkProc
+  simp only [Option.isSome_map]
+  apply postOrder_isSome_of_sinkFirst
+    (l := (topoOrder g).reverse.filterMap (fun u => (g.node? u).map (fuOf fold reg g)))
+  · constructor
+    · have hp : (topoOrder g).reverse.Pairwise (fun a b => (a, b) ∉ g.edges) :=
+        List.pairwise_reverse.2 (topoOrder_forward g)
+      refine List.Pairwise.filterMap _ ?_ hp
+      intro u v huv a ha b hb
+      simp only [Option.mem_def, Option.map_eq_some_iff] at ha hb
+      obtain ⟨n, hn, rfl⟩ := ha
+      obtain ⟨n', hn', rfl⟩ := hb
+      have h1 := (Graph.node?_some hn).2
+      have h2 := (Graph.node?_some hn').2
+      simp only [fuOf_model, mkModel_name, fuOf_preds, mem_sortNames, Graph.mem_preds, h1, h2]
+      exact huv
+    · intro a ha
+      rw [List.mem_filterMap] at ha
+      obtain ⟨u, hu, hm⟩ := ha
+      simp only [Option.map_eq_some_iff] at hm
+      obtain ⟨n, hn, rfl⟩ := hm
+      have h1 := (Graph.node?_some hn).2
+      simp only [fuOf_model, mkModel_name, fuOf_preds, mem_sortNames, Graph.mem_preds, h1]
+      exact topoOrder_no_loop g (List.mem_reverse.1 hu)
+  · intro x hx
+    rw [List.mem_map] at hx
+    obtain ⟨n, hn, rfl⟩ := hx
+    have hn' := (List.mem_filter.1 hn).1
+    rw [List.mem_filterMap]
+    refine ⟨n.name, List.mem_reverse.2 ((mem_topoOrder hac).2 (Graph.mem_names.2 ⟨n, hn', rfl⟩)), ?_⟩
+    rw [Graph.node?_of_mem hwf.namesNodup hn']
+    rfl
+
+end MakeProc
+
 end LoaderDefects
 end Loader
 end ProcSim
